@@ -1,7 +1,7 @@
 """C27  Distinct packages get distinct generated module names (crates/core/src/path.rs)
 
-Symbolic: a Resolve with two packages in one namespace: names = valid kebab
-names over {a,b,-} (<= 3 chars), versions optional; a version is
+Symbolic: a Resolve with three packages in one namespace: names = valid kebab
+names over {a,-,0,1} (<= 6 chars), versions optional; a version is
 MAJOR.MINOR.PATCH (each 0..19) with optional pre-release and build metadata
 (<= 4 chars over {a,0,1,-,.}) constrained by the SemVer grammar.
 Real code: name_package_module interpreted from source for both package ids.
@@ -24,14 +24,15 @@ from hunt import hunt, self_test
 import models
 
 FILES = ["crates/core/src/path.rs"]
-NAME_AL = "ab-"
+NAME_AL = "a-01"
+NP = 3
 ID_AL = "a01-."
 
 
 def bounds(tier):
     if tier == "quick":
-        return dict(name_len=3, num_hi=11, id_len=3)
-    return dict(name_len=3, num_hi=19, id_len=4)
+        return dict(name_len=6, num_hi=11, id_len=3)
+    return dict(name_len=6, num_hi=19, id_len=4)
 
 
 def is_digit(c):
@@ -127,7 +128,7 @@ def version_str(vals, i):
 
 
 def native_case(vals):
-    return {"prop": "C27", "pkgs": [{"ns": "n", "name": vals["name%d" % i], "version": version_str(vals, i)} for i in range(2)]}
+    return {"prop": "C27", "pkgs": [{"ns": "n", "name": vals["name%d" % i], "version": version_str(vals, i)} for i in range(NP)]}
 
 
 def concrete_pkgs(case):
@@ -167,16 +168,33 @@ def validate_translator(asts, res, seed):
                 res.inconclusive.append("model validation: to_snake_case(%r): model %r, heck %r" % (s_, got, exp))
     res.extra["snake_model_validation"] = {"cases": len(strs), "mismatches": bad}
     ok = ok and bad == 0
+    # (a') the harness' valid-WIT-name predicate vs wit-parser, exhaustively on short names
+    names_ = [""]
+    for n in range(1, 5):
+        names_ += ["".join(t) for t in itertools.product(NAME_AL, repeat=n)]
+    names_ += ["a1-0-0", "ab-1-0", "a-b-0-1", "a1-0-", "a--1-0"]
+    okw = native_run([{"prop": "wit", "names": [x for x in names_ if x]}])[0]["ok"]
+    badk = 0
+    for nm, w in zip([x for x in names_ if x], okw):
+        mine = is_t(z3.simplify(valid_kebab(BStr.lit(nm)))) if True else False
+        if mine != w:
+            badk += 1
+            if badk <= 3:
+                res.inconclusive.append("name predicate validation: %r: harness says %s, wit-parser says %s" % (nm, mine, w))
+    res.extra["wit_name_predicate_validation"] = {"cases": len(okw), "mismatches": badk}
+    ok = ok and badk == 0
     # (b) Version Display model and (c) the whole function, on seeded concrete resolves
     cases = []
     vers = [None, "1.0.0", "0.1.0", "0.2.0", "1.0.0-a.b", "1.0.0-a-b", "1.0.0+a", "1.0.0-a", "10.2.19-a1.1+1.a", "1.0.0--a", "1.0.0-a--b",
             "0.0.1-1", "0.0.1-0", "2.3.4+0.01"]
-    names = ["a", "b", "ab", "a-b", "b-a", "abb"]
+    names = ["a", "aa", "a-a", "a1", "a1-0-0", "a0-1", "a-1", "a0"]
     for _ in range(200):
         n0 = rnd.choice(names)
-        n1 = n0 if rnd.random() < 0.7 else rnd.choice(names)
-        cases.append({"prop": "C27", "pkgs": [{"ns": "n", "name": n0, "version": rnd.choice(vers)},
-                                             {"ns": "n" if rnd.random() < 0.9 else "m", "name": n1, "version": rnd.choice(vers)}]})
+        pk = [{"ns": "n", "name": n0, "version": rnd.choice(vers)}]
+        for _j in range(rnd.randint(1, 2)):
+            n1 = n0 if rnd.random() < 0.7 else rnd.choice(names)
+            pk.append({"ns": "n" if rnd.random() < 0.9 else "m", "name": n1, "version": rnd.choice(vers)})
+        cases.append({"prop": "C27", "pkgs": pk})
     natr = native_run(cases)
     mism = 0
     for case, nr in zip(cases, natr):
@@ -203,8 +221,11 @@ def run(ctx):
     tier, seed, dec = ctx["tier"], ctx["seed"], ctx["decider"]
     res = Result()
     B = bounds(tier)
-    res.bounds = {"packages": "two packages in the same namespace",
-                  "names": "valid kebab names (start with a letter, no leading/trailing/double hyphen) of length <= %d over {a,b,-}" % B["name_len"],
+    if tier == "quick":
+        dec.timeout = 120      # CPU seconds per query: the final unsat proof needs 40-60 s
+    res.bounds = {"packages": "three pairwise distinct packages in the same namespace",
+                  "names": "valid WIT kebab names (start with a letter, no leading/trailing/double hyphen; predicate validated against "
+                           "wit-parser) of length <= %d over {a,-,0,1}" % B["name_len"],
                   "versions": "absent, or MAJOR.MINOR.PATCH with each number in 0..%d, pre-release and build metadata each absent or "
                               "<= %d chars over {a,0,1,-,.} and valid per the SemVer grammar" % (B["num_hi"], B["id_len"])}
     res.outside_claim = ["more than two packages with the same name, longer names / identifiers, other characters",
@@ -222,7 +243,7 @@ def run(ctx):
     inp = Inputs()
     pkgs = []
     P = []
-    for i in range(2):
+    for i in range(NP):
         name = inp.str("name%d" % i, B["name_len"], NAME_AL)
         hasv = inp.flag("hasv%d" % i)
         maj = inp.usize("maj%d" % i, B["num_hi"])
@@ -249,16 +270,18 @@ def run(ctx):
     while len(vl) < 40 and tries < 4000:
         tries += 1
         vals = {}
-        for i in range(2):
-            vals["name%d" % i] = rnd.choice(["a", "b", "ab", "a-b", "ba", "b-a"][: 6 if B["name_len"] >= 3 else 2])
+        for i in range(NP):
+            vals["name%d" % i] = rnd.choice(["a", "aa", "a-a", "a1", "a1-0-0", "a-1", "a0"])
             vals["hasv%d" % i] = rnd.randint(0, 1)
             for k in ("maj", "min", "pat"):
                 vals["%s%d" % (k, i)] = rnd.randint(0, B["num_hi"])
             vals["pre%d" % i] = "".join(rnd.choice(ID_AL) for _ in range(rnd.randint(0, B["id_len"])))
             vals["bld%d" % i] = "".join(rnd.choice(ID_AL) for _ in range(rnd.randint(0, B["id_len"])))
-        if all(py_valid_ident_list(vals["pre%d" % i], True) and py_valid_ident_list(vals["bld%d" % i], False) for i in range(2)):
+        if all(py_valid_ident_list(vals["pre%d" % i], True) and py_valid_ident_list(vals["bld%d" % i], False) for i in range(NP)):
             if len(vl) % 2 == 0:
                 vals["name1"] = vals["name0"]
+            if len(vl) % 3 == 0:
+                vals["name2"] = vals["name0"]
             vl.append(vals)
     nat = native_run([native_case(v) for v in vl])
     mism = 0
@@ -280,32 +303,71 @@ def run(ctx):
         same_some = And(a["hasv"], b["hasv"], Eq(a["maj"].term, b["maj"].term), Eq(a["min"].term, b["min"].term),
                         Eq(a["pat"].term, b["pat"].term), bstr.eq(a["pre"].b, b["pre"].b), bstr.eq(a["bld"].b, b["bld"].b))
         return Or(And(Not(a["hasv"]), Not(b["hasv"])), same_some)
-    a, b = P
-    names_eq = bstr.eq(a["name"].b, b["name"].b)
-    distinct = Not(And(names_eq, veq(a, b)))
-    goal = Implies(distinct, Not(bstr.eq(outs[0], outs[1])))
-    nums_eq = And(Eq(a["maj"].term, b["maj"].term), Eq(a["min"].term, b["min"].term), Eq(a["pat"].term, b["pat"].term))
-    pre_eq = bstr.eq(a["pre"].b, b["pre"].b)
-    bld_eq = bstr.eq(a["bld"].b, b["bld"].b)
-    both = And(a["hasv"], b["hasv"])
-    shapes = [("names-differ", Not(names_eq)),
-              ("versioned-vs-unversioned", Not(both)),
-              ("numbers-differ", And(both, Not(nums_eq))),
-              ("prerelease-differs-only", And(both, nums_eq, Not(pre_eq), bld_eq)),
-              ("build-metadata-differs-only", And(both, nums_eq, pre_eq, Not(bld_eq))),
-              ("prerelease-and-build-differ", And(both, nums_eq, Not(pre_eq), Not(bld_eq)))]
+    def has_digit(bs):
+        return Or(*[is_digit(c) for c in bs.chars])
+    pair_goals = []
+    sh = {k: [] for k in ("digits", "names", "unver", "nums", "content", "pre", "bld", "both")}
+
+    def alnum_content(p):
+        t = bstr.concat(p["pre"].b, p["bld"].b)
+        return bstr.compact(t.chars, [And(Not(Eq(c, Z8)), models.is_alnum_lower(c)) for c in t.chars])
+    for i in range(NP):
+        for j in range(i + 1, NP):
+            a, b = P[i], P[j]
+            names_eq = bstr.eq(a["name"].b, b["name"].b)
+            distinct = Not(And(names_eq, veq(a, b)))
+            coll = And(distinct, bstr.eq(outs[i], outs[j]))
+            pair_goals.append(Not(coll))
+            nums_eq = And(Eq(a["maj"].term, b["maj"].term), Eq(a["min"].term, b["min"].term), Eq(a["pat"].term, b["pat"].term))
+            pre_eq = bstr.eq(a["pre"].b, b["pre"].b)
+            bld_eq = bstr.eq(a["bld"].b, b["bld"].b)
+            bothv = And(a["hasv"], b["hasv"])
+            sh["digits"].append(And(coll, Not(names_eq), Or(has_digit(a["name"].b), has_digit(b["name"].b))))
+            sh["names"].append(And(coll, Not(names_eq)))
+            sh["unver"].append(And(coll, names_eq, Not(bothv)))
+            sh["nums"].append(And(coll, names_eq, bothv, Not(nums_eq)))
+            # the letters/digits of the pre-release + build identifiers differ (not just their separators / placement)
+            sh["content"].append(And(coll, names_eq, bothv, nums_eq, Not(bstr.eq(alnum_content(a), alnum_content(b)))))
+            sh["pre"].append(And(coll, names_eq, bothv, nums_eq, Not(pre_eq), bld_eq))
+            sh["bld"].append(And(coll, names_eq, bothv, nums_eq, pre_eq, Not(bld_eq)))
+            sh["both"].append(And(coll, names_eq, bothv, nums_eq, Not(pre_eq), Not(bld_eq)))
+    goal = And(*pair_goals)
+    distinct = TRUE
+    # a resolve never holds two packages with the same (namespace, name, version)
+    all_distinct = And(*[Not(And(bstr.eq(P[i]["name"].b, P[j]["name"].b), veq(P[i], P[j]))) for i in range(NP) for j in range(i + 1, NP)])
+    shapes = [("name-digits-vs-version", Or(*sh["digits"])),
+              ("names-differ", Or(*sh["names"])),
+              ("versioned-vs-unversioned", Or(*sh["unver"])),
+              ("numbers-differ", Or(*sh["nums"])),
+              ("version-identifier-content-dropped", Or(*sh["content"])),
+              ("prerelease-differs-only", Or(*sh["pre"])),
+              ("build-metadata-differs-only", Or(*sh["bld"])),
+              ("prerelease-and-build-differ", Or(*sh["both"]))]
+
+    def collisions(case, names):
+        out = []
+        pk = case["pkgs"]
+        for i in range(len(pk)):
+            for j in range(i + 1, len(pk)):
+                if (pk[i]["name"], pk[i]["version"]) != (pk[j]["name"], pk[j]["version"]) and names[i] == names[j]:
+                    out.append((i, j))
+        return out
 
     def replay_fn(vals):
         case = native_case(vals)
         nat = native_run([case])[0]
         names = nat.get("names")
-        distinct_in = (case["pkgs"][0]["name"], case["pkgs"][0]["version"]) != (case["pkgs"][1]["name"], case["pkgs"][1]["version"])
-        rep = bool(names) and distinct_in and names[0] == names[1]
-        return {"reproduced": rep, "native": nat, "replay": {"native_case": case},
-                "what": "packages n:%s@%s and n:%s@%s both get module name %r"
-                        % (case["pkgs"][0]["name"], case["pkgs"][0]["version"], case["pkgs"][1]["name"], case["pkgs"][1]["version"],
-                           names[0] if names else None)}
-    base = [inp.wf(), model_bound]
+        col = collisions(case, names) if names else []
+        what = ""
+        if col:
+            i, j = col[0]
+            pk = case["pkgs"]
+            ctx = [p for k, p in enumerate(pk) if k not in (i, j)]
+            what = "packages n:%s@%s and n:%s@%s both get module name %r (other package in the resolve: %s)" % (
+                pk[i]["name"], pk[i]["version"], pk[j]["name"], pk[j]["version"], names[i],
+                ", ".join("n:%s@%s" % (p["name"], p["version"]) for p in ctx))
+        return {"reproduced": bool(col), "native": nat, "replay": {"native_case": case}, "what": what}
+    base = [inp.wf(), model_bound, all_distinct]
     hunt(dec, res, "C27", "distinct-module-names", base + [other_panics], goal, shapes, inp, replay_fn,
          "C27/rs2smt/name_package_module/distinct",
          sample="distinct (name, version) => distinct module name; names<=%d, numbers<=%d, identifiers<=%d"
@@ -325,7 +387,7 @@ def run(ctx):
     else:
         res.inconclusive.append("the to_snake_case model bound is reachable within the input alphabet (%s %s)" % (v, note))
     if tier == "thorough":
-        self_test(dec, res, "distinct-module-names", base, Implies(distinct, Not(Eq(outs[0].n, outs[1].n))))
+        self_test(dec, res, "distinct-module-names", base, Not(Eq(outs[0].n, outs[1].n)))
     return res
 
 
@@ -335,8 +397,9 @@ def replay(path):
     nat = native_run([case])[0]
     print("replay %s: packages=%s" % (path, json.dumps(case["pkgs"])))
     print("  native module names: %s" % nat.get("names", nat))
-    names = nat.get("names") or [None, 1]
+    names = nat.get("names") or []
     p = case["pkgs"]
-    bad = (p[0]["name"], p[0]["version"]) != (p[1]["name"], p[1]["version"]) and names[0] == names[1]
-    print("  REPRODUCED (distinct packages, same module name)" if bad else "  NOT REPRODUCED")
+    bad = [(i, j) for i in range(len(names)) for j in range(i + 1, len(names))
+           if (p[i]["name"], p[i]["version"]) != (p[j]["name"], p[j]["version"]) and names[i] == names[j]]
+    print("  REPRODUCED (distinct packages %s, same module name)" % bad if bad else "  NOT REPRODUCED")
     return 0 if bad else 1
